@@ -38,6 +38,8 @@ RULE = (
     "inapplicable / don't-care. evaluations = plans whose three verdicts (sequential, time-triggered, time-triggered shuffled) "
     "were compared. distinct_nontrivial = distinct (problem, plan) that the reference calls invalid for a reason other than a false "
     "precondition or an unsatisfied goal (bounds, invariant, conflict, undefined) or valid with >= 2 steps."
+    " Thorough tier, shard 0: additionally the labelled valid and invalid sequential plans of the repository's example problems "
+    "that fall under the statement (58 plans on the pinned tree) are judged in the same way (counter examples_plans_judged)."
 )
 ASSUMPTIONS = [
     "the statement's precondition (initial state satisfies bounds and invariants) is established with vk/ref/seqsem.py",
@@ -325,11 +327,109 @@ def run_shard(spec, res):
             run_case(key, spec["tier"], b, res)
         except Unsupported:
             res.count("skipped_unsupported_by_oracle")
+    if spec["tier"] == "thorough" and spec["shard"] == 0:
+        res.count("tier:thorough")
+        run_examples(spec["tier"], res)
 
 
 def replay(witness, res):
     tier = witness.get("tier", "quick")
+    if witness.get("example"):
+        run_examples(tier, res, only=witness["example"])
+        return
     run_case(witness["case_key"], tier, BOUNDS[tier], res)
+
+
+def run_examples(tier, res, only=None):
+    """The labelled sequential plans (valid and invalid) of the repository's example problems that fall under the statement
+    (instantaneous actions only, no timed effects / goals, legal initial state), each as a time-triggered plan with distinct
+    start times, listed in order and shuffled."""
+    import random
+
+    from unified_planning.engines.plan_validator import SequentialPlanValidator, TimeTriggeredPlanValidator
+    from unified_planning.exceptions import UPException
+    from unified_planning.model import InstantaneousAction, Problem
+    from unified_planning.plans import SequentialPlan, TimeTriggeredPlan
+    from unified_planning.test.examples import get_example_problems
+    from vk.ref.evalx import const_value
+
+    for name, ex in sorted(get_example_problems().items()):
+        if only and name != only:
+            continue
+        pb = ex.problem
+        if type(pb) is not Problem or pb.kind.has_simulated_effects() or pb.timed_effects or pb.timed_goals:
+            continue
+        if not all(isinstance(a, InstantaneousAction) for a in pb.actions):
+            continue
+        if not (SequentialPlanValidator.supports(pb.kind) and TimeTriggeredPlanValidator.supports(pb.kind)):
+            res.count("examples_skipped_unsupported_kind")
+            continue
+        try:
+            s0 = seqsem.initial_state(pb)
+            if not seqsem.bounds_ok(pb, s0)[0] or (pb.state_invariants and seqsem.invariants_status(pb, s0) is not True):
+                res.count("examples_skipped_initial_state_precondition")
+                continue
+        except Unsupported:
+            res.count("examples_skipped_unsupported_by_oracle")
+            continue
+        except Exception as e:
+            res.count("examples_skipped_oracle_error:" + type(e).__name__)
+            continue
+        rng = random.Random(name)
+        for label, plans in (("valid", ex.valid_plans), ("invalid", ex.invalid_plans)):
+            for k, pl in enumerate(plans):
+                if not isinstance(pl, SequentialPlan) or not pl.actions or len(pl.actions) > 60:
+                    continue
+                try:
+                    steps = [(ai.action, tuple(const_value(p) for p in ai.actual_parameters)) for ai in pl.actions]
+                    st, _, _, r = seqsem.run_plan(pb, steps)
+                except Unsupported:
+                    res.count("examples_skipped_unsupported_by_oracle")
+                    continue
+                except Exception as e:
+                    res.count("examples_skipped_oracle_error:" + type(e).__name__)
+                    continue
+                if st == seqsem.DONTCARE:
+                    res.count("examples_dontcare:" + str(r.reason))
+                    continue
+                times = timestamps(rng, len(pl.actions))
+                timed = [(t, ai, None) for t, ai in zip(times, pl.actions)]
+                shuf = list(timed)
+                rng.shuffle(shuf)
+                env = pb.environment
+                plan_json = [[a.name, list(map(str, args))] for a, args in steps]
+                w = {"example": name, "k": k, "corpus_label": label, "tier": tier, "plan": plan_json, "times": [str(t) for t in times]}
+
+                def call(v, p):
+                    try:
+                        return v(environment=env).validate(pb, p).status.name
+                    except _env.INTERNAL_EXC as ex:
+                        return ("raises", ex)
+                    except UPException as ex:
+                        return ("rejected", ex)
+
+                sq = call(SequentialPlanValidator, pl)
+                tt = call(TimeTriggeredPlanValidator, TimeTriggeredPlan(list(timed), env))
+                tt2 = call(TimeTriggeredPlanValidator, TimeTriggeredPlan(shuf, env))
+                res.mon()
+                raised = [(side, r) for side, r in (("sequential", sq), ("time-triggered", tt), ("time-triggered", tt2)) if isinstance(r, tuple) and r[0] == "raises"]
+                if raised:
+                    res.case()
+                    side, r = raised[0]
+                    res.violation(f"raises:{side}:{type(r[1]).__name__}@{lib_site(r[1])}", f"{side} validator raised {r[1]!r} on the {label} plan #{k} of example {name}", w)
+                    continue
+                if any(isinstance(r, tuple) for r in (sq, tt, tt2)):
+                    res.count("examples_rejected_by_validator")
+                    continue
+                res.case()
+                res.count("examples_plans_judged")
+                res.count("examples_plans_judged:" + label)
+                if tt != tt2:
+                    res.violation("tt-order-dependence:corpus", f"example {name} {label} plan #{k}: time-triggered verdict depends on the listing order: {tt} vs {tt2}", {**w, "observed": {"tt": tt, "tt_shuffled": tt2, "seq": sq}})
+                elif sq != tt:
+                    res.violation(f"tt-{tt}/seq-{sq}:corpus", f"example {name} {label} plan #{k}: time-triggered validation says {tt}, sequential validation says {sq}", {**w, "observed": {"tt": tt, "seq": sq}})
+                else:
+                    res.count("agree:" + sq)
 
 
 def candidate_plans(pb, rng, b):
@@ -555,4 +655,6 @@ def thresholds(m):
         out.append("fewer than 20 reference-valid plans")
     if len(m["nontrivial"]) < 20:
         out.append("fewer than 20 distinct non-trivial plans")
+    if c.get("tier:thorough") and c.get("examples_plans_judged", 0) < 20:
+        out.append(f"fewer than 20 example-corpus plans judged ({c.get('examples_plans_judged', 0)})")
     return out
